@@ -94,7 +94,10 @@ func componentWith(scripts []string, snaps int, labels map[string]string, plain 
 		sc := &scenarios.Scenario{Name: "s"}
 		as := workers.NewActiveScenario(sc, m, stats, hlib.DiscardLogger(), hlib.DiscardLogrus())
 		per := make([]counts, len(scripts))
-		var helpers vsync.WaitGroup
+		// one group per recorder: a group shared by two recorders would be reused by one while the other's Wait has
+		// been released but has not returned yet (a misuse of sync.WaitGroup in the harness, which the faithful shim
+		// turns into the panic the real one raises)
+		helpers := make([]vsync.WaitGroup, len(scripts))
 		sc.RunFn = func(t *f1testing.T) {
 			// iteration id = "<worker>.<index>"; the script says how it ends
 			parts := strings.SplitN(t.Iteration, ".", 2)
@@ -104,8 +107,8 @@ func componentWith(scripts []string, snaps int, labels map[string]string, plain 
 			case oFail:
 				t.Fail()
 			case oHelper:
-				helpers.Add(1)
-				vrt.GoNamed("helper", func() { defer helpers.Done(); t.Fail() })
+				helpers[wi].Add(1)
+				vrt.GoNamed("helper", func() { defer helpers[wi].Done(); t.Fail() })
 			}
 		}
 		var wg vsync.WaitGroup
@@ -132,7 +135,7 @@ func componentWith(scripts []string, snaps int, labels map[string]string, plain 
 						cur.either++
 						st.VerifT().Reset(fmt.Sprintf("%d.%d", i, j))
 						as.Run(st)
-						helpers.Wait() // the next iteration on this handle starts clean
+						helpers[i].Wait() // the next iteration on this handle starts clean
 					}
 				}
 			})
